@@ -2,6 +2,7 @@
 C16-BOUND (DESIGN.md §3)."""
 import struct
 
+import re
 from facts import (norm, show, walk, strip_refs, deep_strip, callee_name, find_calls, guard_conditions, cmp_op,
                    decision_paths, inline_expr, enum_name, static_accesses)
 
@@ -23,6 +24,7 @@ EXPLANATION = (
 def run(fx, rep, tier):
     rule_blend(fx, rep)
     rule_mirror(fx, rep)
+    rule_pack(fx, rep)
     rule_bound(fx, rep)
 
 
@@ -483,6 +485,89 @@ def bits_eval(fx, e, env, depth=5):
 BOARD_SAMPLES = [1 << i for i in range(64)] + [0x00FF00000000FF00, 0x8142241818244281, 0x0102040810204080, 0xFFFFFFFFFFFFFFFF, 0x00000000000000FF, 0x8100000000000081]
 
 
+def typed_eval(fx, e, env):
+    """integer value of a closed-form expression with Rust cast semantics (`as i16` truncates and re-signs), shifts and + - *"""
+    if not isinstance(e, tuple) or not e:
+        return None
+    k = e[0]
+    if k in ("ref", "deref"):
+        return typed_eval(fx, e[1], env)
+    if k == "arg":
+        return env.get(e[1])
+    if k == "const":
+        return int(e[1]) if isinstance(e[1], (int, bool)) else None
+    if k == "agg" and len(e[2]) == 1:
+        return typed_eval(fx, e[2][0], env)
+    if k == "field" and e[2] == "0":
+        return typed_eval(fx, e[1], env)
+    if k == "cast":
+        v = typed_eval(fx, e[1], env)
+        if v is None:
+            return None
+        m = re.match(r"^([iu])(8|16|32|64|128|size)$", str(e[2]))
+        if not m:
+            return v
+        bits = 64 if m.group(2) == "size" else int(m.group(2))
+        v &= (1 << bits) - 1
+        if m.group(1) == "i" and v >= 1 << (bits - 1):
+            v -= 1 << bits
+        return v
+    if k == "binop":
+        a, b = typed_eval(fx, e[2], env), typed_eval(fx, e[3], env)
+        if a is None or b is None:
+            return None
+        op = e[1].replace("WithOverflow", "")
+        return {"Add": a + b, "Sub": a - b, "Mul": a * b, "Shl": a << b if 0 <= b < 64 else None, "Shr": a >> b if 0 <= b < 64 else None,
+                "BitAnd": a & b, "BitOr": a | b}.get(op)
+    if k == "call" and isinstance(e[1], str) and (e[1].endswith("::from") or e[1].endswith("::into")) and len(e[2]) == 1:
+        return typed_eval(fx, e[2][0], env)
+    return None
+
+
+def packed_fn(fx, name, args):
+    b = fx.one(name)
+    ps = [p for p in decision_paths(b, 8) if p[1] is not None]
+    if len(ps) != 1 or ps[0][0]:
+        return None
+    return typed_eval(fx, ps[0][1], {i + 1: a for i, a in enumerate(args)})
+
+
+def rule_pack(fx, rep):
+    """The two halves of the packed accumulator decode to what was packed, also after packed words have been added (a negative
+    midgame half borrows from the endgame half; the decoder's rounding term undoes it): midgame(new(m, e) [+ new(m', e')]) and
+    endgame(..) are evaluated on sample values against m [+ m'] and e [+ e']."""
+    samples = [(0, 0), (1, 1), (-1, -1), (-5, -5), (150, -150), (-150, 150), (2999, -3000), (-3000, 2999), (-1, 0), (0, -1), (-32000, 31000), (1234, 567)]
+    ok = True
+    n = 0
+    bad_ex = None
+    for (m1, e1) in samples:
+        for (m2, e2) in [(0, 0), (-7, 3), (25, -40)]:
+            w1, w2 = packed_fn(fx, "PhasedEval::new", [m1, e1]), packed_fn(fx, "PhasedEval::new", [m2, e2])
+            if w1 is None or w2 is None:
+                rep.notes.append("C16-PACK: PhasedEval::new is not a closed formula this rule evaluates; not decided")
+                rep.rule("C16-PACK", 0, 0, True, "not decided")
+                return
+            w = w1 + w2
+            if not (-2 ** 31 <= w < 2 ** 31) or not (-32768 <= m1 + m2 <= 32767) or not (-32768 <= e1 + e2 <= 32767):
+                continue
+            gm, ge = packed_fn(fx, "PhasedEval::midgame", [w]), packed_fn(fx, "PhasedEval::endgame", [w])
+            if gm is None or ge is None:
+                rep.notes.append("C16-PACK: PhasedEval::midgame / endgame are not closed formulas this rule evaluates; not decided")
+                rep.rule("C16-PACK", 0, 0, True, "not decided")
+                return
+            n += 1
+            good = gm == m1 + m2 and ge == e1 + e2
+            rep.obligation(good)
+            if not good and bad_ex is None:
+                bad_ex = ((m1, e1), (m2, e2), (gm, ge))
+    if bad_ex is not None:
+        ok = False
+        b = fx.one("PhasedEval::endgame")
+        rep.violation("C16-PACK", "C16-PACK/decode", f"packed evaluation: new{bad_ex[0]} + new{bad_ex[1]} decodes to (midgame, endgame) = {bad_ex[2]}, expected {(bad_ex[0][0] + bad_ex[1][0], bad_ex[0][1] + bad_ex[1][1])}: "
+                      "the blend then uses wrong halves (off by one whenever the midgame half is negative), which also breaks colour symmetry", {"fn": b.name, "file": b.file, "line": b.line})
+    rep.rule("C16-PACK", n, 20, ok, "pack / unpack of the two-phase word agree on sample values, also after addition")
+
+
 def colour_equivariance(fx):
     """[(body, ok, detail)] for every loop-free helper of chess::bitboard that takes a Player and returns a Bitboard:
     reflecting the board and swapping the colour must commute with it, f(flip(x), Black) == flip(f(x, White))."""
@@ -734,6 +819,8 @@ PH = "src/engine/eval/phased_eval.rs"
 PS = "src/engine/eval/piece_square_tables.rs"
 PA = "src/engine/eval/params.rs"
 MUTANTS = [
+    {"name": "endgame half decoded without the rounding term (seed C16-4b)", "expect": "C16-PACK",
+     "edits": [("src/engine/eval/phased_eval.rs", "        WhiteEval(((self.0 + 0x8000) >> 16) as i16)", "        WhiteEval((self.0 >> 16) as i16)")]},
     {"name": "Bitboard::backward shifts Black's squares the wrong way", "expect": "C16-MIRROR/equivariant",
      "edits": [("src/chess/bitboard.rs", "    pub fn backward(self, player: Player) -> Self {\n        match player {\n            Player::White => self.south(),\n            Player::Black => self.north(),", "    pub fn backward(self, player: Player) -> Self {\n        match player {\n            Player::White => self.south(),\n            Player::Black => self.south(),")]},
     {"name": "passed-pawn mask keeps the pawn's own rank for Black (seed C16-2)", "expect": "C16-MIRROR/colour-arms",
